@@ -74,6 +74,7 @@ def run(ctx):
     engine_check.scenario_run(ctx, "scen_engine.placeholder_follow_builder", MONITORS, nontrivial, RULE, 16, 300, 12,
                               "placeholder_follower_part", seed_base=830000)
     twin_pass(ctx)
+    real_backend_pass(ctx)
 
 
 # ------------------------------------------------------------------ a Continue batch = its items sent one by one
@@ -248,11 +249,102 @@ def twin_pass(ctx):
     ctx.coverage["evaluations"] = (ctx.coverage.get("evaluations") or 0) + ni
 
 
+# ------------------------------------------------------------------ batches against the REAL cryptography backend
+def real_backend_case(seed):
+    """Batches whose items fail INSIDE the real cryptography engine (wrong GCM tag, key of the wrong length for the
+    cipher, undecryptable padding ...) behind items that change the store, answered by the engine and then ENCODED as the
+    session encodes its answer: every item has its result in the response that can actually be sent - a failure the
+    backend reports with an unusual message must not cost the client the results of the items before it."""
+    import random
+    import impl_engine
+    r = random.Random(seed)
+    E = impl_engine.ImplEngine(scripted_crypto=False)
+    fails = []
+    n = 0
+
+    def line(items, v=14, bopt=1):
+        for k, it in enumerate(items):
+            it.setdefault("bid", "x%d" % k)
+            it.setdefault("crypto", None)
+        return {"cmd": "req", "now": 1000, "id": {"user": "alice", "groups": None},
+                "req": {"version": v, "ts": None, "async": None, "bopt": bopt, "maxsize": None, "items": items}}
+
+    def attr(nm, v):
+        return {"name": nm, "index": None, "value": v}
+    try:
+        key = bytes(r.randrange(256) for _ in range(16))
+        o = E.handle(line([{"op": "register", "otype": 2, "tmpl": {"tnames": 0, "attrs": [attr("Cryptographic Usage Mask", {"k": "int", "v": 12})]},
+                            "obj": {"otype": 2, "value": key.hex(), "alg": 3, "len": 128, "format": 1, "subtype": None}}], bopt=None))
+        K = o["results"][0]["data"]["uid"]
+        E.handle(line([{"op": "activate", "uid": K}], bopt=None))
+        gcp = {"mode": 9, "padding": None, "alg": 3, "taglen": 16}
+        enc = E.handle(line([{"op": "encrypt", "uid": K, "params": True, "cp": gcp, "data_hex": "11" * 24, "iv_hex": "22" * 12}], bopt=None))
+        e0 = enc["results"][0]
+        create = lambda: {"op": "create", "otype": 2, "tmpl": {"tnames": 0, "attrs": [
+            attr("Cryptographic Algorithm", {"k": "enum", "v": 3}), attr("Cryptographic Length", {"k": "int", "v": 128}),
+            attr("Cryptographic Usage Mask", {"k": "int", "v": 12})]}}
+        bads = []
+        if e0.get("status") == "ok" and e0.get("_tag"):
+            bads.append({"op": "decrypt", "uid": K, "params": True, "cp": gcp, "data_hex": e0["data"]["c"], "iv_hex": "22" * 12,
+                         "tag_hex": "00" * 16})
+            bads.append({"op": "decrypt", "uid": K, "params": True, "cp": gcp, "data_hex": "ff" + e0["data"]["c"][2:],
+                         "iv_hex": "22" * 12, "tag_hex": e0["_tag"]})
+        bads.append({"op": "decrypt", "uid": K, "params": True, "cp": {"mode": 1, "padding": 3, "alg": 3}, "data_hex": "ab" * 16,
+                     "iv_hex": "22" * 16})
+        bads.append({"op": "encrypt", "uid": K, "params": True, "cp": {"mode": 1, "padding": 3, "alg": 2}, "data_hex": "ab" * 16,
+                     "iv_hex": "22" * 8})
+        for bad in bads:
+            for v in (14, 20):
+                items = [create(), {"op": "activate", "uid": None}, dict(bad), {"op": "getAttributeList", "uid": K}]
+                o = E.handle(line(items, v=v))
+                n += 1
+                rs = o.get("results")
+                if rs is None:
+                    fails.append(("c08:real-backend-batch-rejected", "batch [Create; Activate; %s %s; GetAttributeList] was "
+                                  "answered as a whole: %s" % (bad["op"], bad["cp"], str(o)[:200])))
+                    continue
+                if len(rs) != 4:
+                    fails.append(("c08:continue-skipped-items", "%d results for 4 items" % len(rs)))
+                if o.get("_encode_error"):
+                    fails.append(("c08:results-lost-response-unencodable",
+                                  "the engine's answer to [Create; Activate; %s with %s (fails in the backend); GetAttributeList] "
+                                  "cannot be encoded (%s at %s, items %s): the session answers ONE General Failure and the "
+                                  "client never learns the results %s of the items that took effect"
+                                  % (bad["op"], bad["cp"], o["_encode_error"].get("exc"), o["_encode_error"].get("site"),
+                                     o["_encode_error"].get("items"), [(x.get("status"), x.get("reason")) for x in rs])))
+                    break
+            if fails:
+                break
+    finally:
+        E.close()
+    return fails, n
+
+
+def real_backend_pass(ctx):
+    import multiprocessing
+    k = 6 if ctx.tier == "quick" else 80
+    seeds = [ctx.seed * 2003 + 660 + i for i in range(k)]
+    with multiprocessing.get_context("fork").Pool(6) as pool:
+        res = pool.map(real_backend_case, seeds)
+    tot = 0
+    for sd, (fails, n) in zip(seeds, res):
+        tot += n
+        for sig, what in fails:
+            ctx.report(sig, what, {"kind": "real-backend", "seed": sd})
+    ctx.coverage["real_backend_batches"] = tot
+    ctx.coverage["evaluations"] = (ctx.coverage.get("evaluations") or 0) + tot
+
+
 def search(ctx, broken):
     engine_check.standard_search(ctx, PROFILE, MONITORS, 25, builder="props.c08.builder")
 
 
 def replay(ctx, rep):
+    if (rep.get("replay") or {}).get("kind") == "real-backend":
+        fails, _n = real_backend_case(rep["replay"]["seed"])
+        for sig, what in fails:
+            print("  %s: %s" % (sig, what))
+        return not fails
     if (rep.get("replay") or {}).get("kind") == "twin":
         r = twin_case(tuple(rep["replay"]["args"]))
         for sig, what, line in r["fails"]:
